@@ -258,3 +258,71 @@ func Permutations(g *Grammar, limit int) []*Grammar {
 	rec(0)
 	return out
 }
+
+// S4: string-literal terminals with hostile content, as grammars with an AST (so that every table-level and
+// compiled-code check applies to them, not only the generation checks): S : a L | L S.
+func S4() []*Grammar {
+	var out []*Grammar
+	for _, c := range []string{"x\ny", "\r", "\"", "\\", "\\n", "%", "{{", "'", "*/", "//", "é", " ", "a b", "`", "<<", "$0", "\t", "\x00", "aa", "INVALIDx", "error_", "empty_"} {
+		l := Sym{Name: c, Str: true}
+		out = append(out, &Grammar{Lex: tokDefs([]string{"a"}), Alts: []Alt{
+			{Head: "S", Body: []Sym{{Name: "a"}, l}},
+			{Head: "S", Body: []Sym{l, {Name: "S"}}},
+		}})
+	}
+	// long bodies: attribute indices with two digits
+	out = append(out, Mk("S: a b c a b c a b c a b c | c S"), Mk("S: A A A A A A A A A A A b | b ; A: a | empty"))
+	return out
+}
+
+// S3: the alternatives of one head split over several rules with rules of another head in between
+// (S : x ; A : ... ; S : y ;): gocc accepts this and treats the later rule as further alternatives.
+func S3(maxAlts int) []*Grammar {
+	var out []*Grammar
+	seen := map[string]bool{}
+	for _, g := range S1(maxAlts, false) {
+		// positions of S alternatives and A alternatives
+		var sIdx, aIdx []int
+		for i, a := range g.Alts {
+			if a.Head == "S" {
+				sIdx = append(sIdx, i)
+			} else {
+				aIdx = append(aIdx, i)
+			}
+		}
+		if len(sIdx) < 2 || len(aIdx) < 1 {
+			if !(len(aIdx) >= 2 && len(sIdx) >= 1) {
+				continue
+			}
+		}
+		var orders [][]int
+		if len(sIdx) >= 2 && len(aIdx) >= 1 {
+			// S first-alternative, all A, remaining S
+			o := []int{sIdx[0]}
+			o = append(o, aIdx...)
+			o = append(o, sIdx[1:]...)
+			orders = append(orders, o)
+		}
+		if len(aIdx) >= 2 {
+			// S..., A first, S? no: A first, S rest is impossible without a second S; use A, S, A with S first kept at front
+			o := []int{sIdx[0], aIdx[0]}
+			o = append(o, sIdx[1:]...)
+			o = append(o, aIdx[1:]...)
+			if len(sIdx) >= 2 {
+				orders = append(orders, o)
+			}
+		}
+		for _, o := range orders {
+			ng := &Grammar{Lex: g.Lex}
+			for _, i := range o {
+				ng.Alts = append(ng.Alts, g.Alts[i])
+			}
+			t := ng.Text()
+			if !seen[t] {
+				seen[t] = true
+				out = append(out, ng)
+			}
+		}
+	}
+	return out
+}
